@@ -1,6 +1,7 @@
 package engine
 
 import (
+	"golang.org/x/tools/go/ssa"
 	"fmt"
 	"os"
 	"strings"
@@ -55,5 +56,74 @@ func DumpAll(p *Program, fnKey string) {
 		for _, n := range vc.Notes {
 			fmt.Println("  note:", n)
 		}
+	}
+}
+
+// Writers lists, for every function whose key contains fnKey, the direct callees whose write summary contains a heap
+// key with the substring key (diagnostic: who is responsible for a havoc).
+func Writers(p *Program, fnKey, key string) {
+	for k, fn := range p.Funcs {
+		if !strings.Contains(k, fnKey) {
+			continue
+		}
+		s := p.Summ[fn]
+		if s == nil {
+			continue
+		}
+		fmt.Println("==", k, "all:", s.All)
+		for dk := range s.direct {
+			if strings.Contains(dk, key) {
+				fmt.Println("  direct write:", dk)
+			}
+		}
+		seen := map[*ssa.Function]bool{}
+		for _, c := range s.calls {
+			if seen[c] {
+				continue
+			}
+			seen[c] = true
+			cs := p.Summ[c]
+			if cs == nil {
+				continue
+			}
+			if cs.All {
+				fmt.Println("  callee writes ALL:", FuncKey(c))
+			}
+			for wk := range cs.Writes {
+				if strings.Contains(wk, key) {
+					fmt.Println("  callee", FuncKey(c), "writes", wk)
+				}
+			}
+		}
+	}
+}
+
+// AllRoots prints the functions reachable from fnKey whose own body makes a call to unknown code (the roots of an
+// "ALL" write summary), with the call path.
+func AllRoots(p *Program, fnKey string) {
+	for k, fn := range p.Funcs {
+		if !strings.Contains(k, fnKey) {
+			continue
+		}
+		fmt.Println("==", k)
+		seen := map[*ssa.Function]bool{}
+		var walk func(f *ssa.Function, path string)
+		walk = func(f *ssa.Function, path string) {
+			if seen[f] {
+				return
+			}
+			seen[f] = true
+			s := p.Summ[f]
+			if s == nil || !s.All {
+				return
+			}
+			if s.dynAll {
+				fmt.Println("  root:", path)
+			}
+			for _, c := range s.calls {
+				walk(c, path+" > "+c.Name())
+			}
+		}
+		walk(fn, fn.Name())
 	}
 }
